@@ -75,9 +75,10 @@ TEXTS = {
  },
  "C09": {
   "level": "Lean theorems over the search model for every game, position with a legal move, every limit combination, clock, stop point and i16-valued initial cache: the single bestmove answered is a "
-           "legal move of the searched position; the ply counter stays in 0..255 (no index / u8 overflow). Tied to the code trace-exactly incl. every node budget and stop point (fallback move when the "
-           "first iteration is interrupted); the real binary is driven with limit mixes and consecutive go commands for count, legality, latency and readyok.",
-  "note": "PARTIAL for the wall-clock clause: latency is measured on the real binary with an allowance, not proved. Trusted: Lean kernel, search model, hooks, harness/driver, OS scheduling.",
+           "legal move of the searched position; the ply counter stays in 0..255 (no index / u8 overflow); the time allowance the engine gives itself is at most the mover's own clock + increment and a clock "
+           "reading at or past it is noticed at that consultation (after which, by C13, no node is visited). Tied to the code trace-exactly incl. every node budget and stop point (fallback move when the "
+           "first iteration is interrupted); the real binary is driven with limit mixes (incl. own clock short / opponent's long, both colours) and consecutive go commands for count, legality, latency and readyok.",
+  "note": "PARTIAL for the wall-clock clause: latency is measured on the real binary with an allowance scaled by the measured machine load, a miss must recur on three runs; not proved. Trusted: Lean kernel, search model, hooks, harness/driver, OS scheduling.",
   "technique": "Lean 4 proof (range invariant on returned scores, root-loop invariant) + trace-exact correspondence + process-level timing runs",
  },
  "C07": {
